@@ -64,34 +64,12 @@ func maskIn(typ, field string) func(any) {
 	}
 }
 
-var explanations = []explanation{
-	{
-		sig: "value-empty-bytes-becomes-empty",
-		msg: "an attribute value of type Bytes holding zero bytes (Value.SetEmptyBytes()) comes back with Type()==Empty: the one-of wrapper holds a nil slice and the generated code only writes `BytesValue != nil` (pcommon/value.go SetEmptyBytes, common.pb.go AnyValue_BytesValue.MarshalToSizedBuffer)",
-		norm: func(tree any) {
-			visit(tree, func(n *pview.Node) {
-				if isValue(n, "Bytes") && len(n.Fields) == 2 && n.Fields[1].Val == pview.B("") {
-					n.Fields = []pview.Field{{Name: "Type", Val: "Empty"}}
-				}
-			})
-		},
-	},
-	{
-		sig: "json-reader-drops/LogRecord.EventName", codec: "json", only: "logs",
-		msg:  "plog JSON decoder has no case for eventName/event_name: LogRecord.EventName() is lost (pdata/plog/json.go LogRecord.unmarshalJsoniter)",
-		norm: maskIn("plog.LogRecord", "EventName"),
-	},
-	{
-		sig: "json-reader-drops/ExponentialHistogramDataPoint.ZeroThreshold", codec: "json", only: "metrics",
-		msg:  "pmetric JSON decoder has no case for zeroThreshold/zero_threshold: ExponentialHistogramDataPoint.ZeroThreshold() is lost (pdata/pmetric/json.go)",
-		norm: maskIn("pmetric.ExponentialHistogramDataPoint", "ZeroThreshold"),
-	},
-	{
-		sig: "json-reader-no-base64/Profile.OriginalPayload", codec: "json", only: "profiles",
-		msg:  "pprofile JSON decoder reads originalPayload with ReadStringAsSlice, i.e. keeps the base64 *text* as the payload bytes instead of decoding it (pdata/pprofile/json.go Profile.unmarshalJsoniter)",
-		norm: maskIn("pprofile.Profile", "OriginalPayload"),
-	},
-}
+// explanations is empty: the four root causes it used to attribute (empty
+// Bytes value, LogRecord.EventName / ExponentialHistogramDataPoint.ZeroThreshold
+// dropped and Profile.OriginalPayload not base64-decoded by the JSON readers)
+// were repaired in /repo; any such difference is now an ordinary violation
+// (regression cases: regress_test.go and /verif/replays/C08).
+var explanations = []explanation{}
 
 // allowNegZero walks both trees in parallel and, wherever the original holds
 // the double -0 and the decoded tree +0, rewrites the original to +0.  This is
